@@ -82,6 +82,32 @@ func c01(r *ev.Run, replay string) {
 		c01Pool(r, sg, pool, rng)
 		r.Count("maven_dot_qualifier_pools", 1)
 	}
+	// A version, its shortened spellings and the wildcard patterns around it
+	// (1, 1.x, 1.0, 1.2.x, x.2.3): whatever of these a system's Parse accepts is
+	// a version of that system.
+	for _, sg := range gen.OrderSystems() {
+		for sh := 0; sh < r.N(1, 6); sh++ {
+			rng := r.Rand(fmt.Sprintf("wild/%s/%d", sg.Name, sh))
+			pool := gen.WildFamilies(rng, sg.Gen, 160, func(s string) bool {
+				if sg.Sys == semver.Maven && !gen.MavenInDomain(s) {
+					return false
+				}
+				_, err := sg.Sys.Parse(s)
+				return err == nil
+			})
+			wild := 0
+			for _, s := range pool {
+				if strings.ContainsAny(s, "xX*") {
+					wild++
+				}
+			}
+			r.Count("wildcard_family_pools:"+sg.Name, 1)
+			r.Count("wildcard_patterns_in_pools:"+sg.Name, int64(wild))
+			if len(pool) >= 3 {
+				c01Pool(r, sg, pool, rng)
+			}
+		}
+	}
 	n := r.N(300, 600)
 	shards := r.N(6, 48)
 	var wg sync.WaitGroup
